@@ -24,6 +24,13 @@ fn devices() -> Vec<String> {
         "/mnt/mdt0\r\n.snap".into(),
         "a\rb\tc".into(),
         "/mnt/lustre/😀/mdt0".into(),
+        "/.".into(),
+        "/..".into(),
+        ".".into(),
+        "/proc/self".into(),
+        "/tmp/../tmp".into(),
+        "/dev/mapper/vg0-mdt0".into(),
+        "-a".into(),
         "/dev/mapper/mdt0/".into(),
         "/dev//mapper/mdt0".into(),
         "//".into(),
